@@ -54,9 +54,42 @@ Lemma cut_kind_flag p b :
   <-> (b = true <-> cut_kind p = KInterrupt).
 Proof. rewrite bool_eqb_iff. destruct (cut_kind p); intuition congruence. Qed.
 
+Lemma is_nil_iff {A} (l : list A) : is_nil l = true <-> l = [].
+Proof. destruct l; simpl; split; congruence. Qed.
+
+(* the executable walk checker is the inductive one *)
+Lemma log_okb_walk C : forall pl t log, log_okb C t pl log = true <-> Walk C t pl log.
+Proof.
+  induction pl as [|[k st] r IH]; intros t log.
+  - cbn [log_okb]. rewrite is_nil_iff. split; [intros ->; constructor | intro W; inversion W; reflexivity].
+  - destruct log as [|[k' t'] lr]; cbn [log_okb].
+    + split; [discriminate | intro W; inversion W].
+    + rewrite !andb_true_iff, !Nat.eqb_eq. split.
+      * intros [[<- <-] H]. destruct (completes t st) as [|u|] eqn:E.
+        -- apply W_now; [exact E | apply IH; exact H].
+        -- destruct (Nat.ltb u C) eqn:L.
+           ++ apply Nat.ltb_lt in L. apply (W_go C t k st r lr u E); [lia | apply IH; exact H].
+           ++ apply Nat.ltb_ge in L. destruct (Nat.eqb u C) eqn:Q.
+              ** apply Nat.eqb_eq in Q. apply orb_true_iff in H as [H|H].
+                 --- apply is_nil_iff in H. subst lr. apply (W_late C t k st r u E). lia.
+                 --- apply (W_go C t k st r lr u E); [lia | apply IH; exact H].
+              ** apply is_nil_iff in H. subst lr. apply (W_late C t k st r u E). exact L.
+        -- apply is_nil_iff in H. subst lr. apply W_never. exact E.
+      * intro W.
+        inversion W as [ | ? ? ? ? ? Hc Hw | ? ? ? ? ? u Hc Hu Hw | ? ? ? ? u Hc Hu | ? ? ? ? Hc]; subst;
+          (split; [split; reflexivity|]); rewrite Hc.
+        -- apply IH. exact Hw.
+        -- destruct (Nat.ltb u C) eqn:L; [apply IH; exact Hw|].
+           apply Nat.ltb_ge in L. assert (u = C) by lia. subst u. rewrite Nat.eqb_refl.
+           apply orb_true_iff. right. apply IH. exact Hw.
+        -- assert (L : Nat.ltb u C = false) by (apply Nat.ltb_ge; exact Hu). rewrite L.
+           destruct (Nat.eqb u C); reflexivity.
+        -- reflexivity.
+Qed.
+
 Lemma spec_okb_iff p o : spec_okb p o = true <-> Spec p o.
 Proof.
-  unfold spec_okb, Spec. rewrite !andb_true_iff, log_eqb_spec, one_outcome_iff, bool_eqb_iff,
+  unfold spec_okb, Spec. rewrite !andb_true_iff, log_okb_walk, one_outcome_iff, bool_eqb_iff,
     reports_success_iff, !andb_true_iff, !Nat.eqb_eq.
   assert (T : (if completed p then true
                else list_eqb ev_eqb (o_events o) [StartTest; AddError; StopTest]
@@ -70,14 +103,93 @@ Proof.
   rewrite T. tauto.
 Qed.
 
+(* ================= walks that go on: Go B t pl l t' = the stages of pl all completed (the asynchronous ones
+   strictly before instant B), one after the other from instant t, the last one at t' ================= *)
+Inductive Go (B : time) : time -> list (nat * stage) -> list (nat * time) -> time -> Prop :=
+| Go_end : forall t, Go B t [] [] t
+| Go_now : forall t k st r l t', completes t st = Immediately -> Go B t r l t' ->
+                                 Go B t ((k, st) :: r) ((k, t) :: l) t'
+| Go_at : forall t k st r l u t', completes t st = At u -> u < B -> Go B u r l t' ->
+                                  Go B t ((k, st) :: r) ((k, t) :: l) t'.
+
+Lemma go_weaken B B' t pl l t' : B <= B' -> Go B t pl l t' -> Go B' t pl l t'.
+Proof.
+  intros LE G. induction G.
+  - constructor.
+  - apply Go_now; assumption.
+  - apply (Go_at B' t k st r l u t'); [assumption | lia | assumption].
+Qed.
+
+Lemma go_app B t p1 l1 t1 p2 l2 t2 :
+  Go B t p1 l1 t1 -> Go B t1 p2 l2 t2 -> Go B t (p1 ++ p2) (l1 ++ l2) t2.
+Proof.
+  intros G1 G2. induction G1; cbn [app].
+  - exact G2.
+  - apply Go_now; [assumption | apply IHG1; exact G2].
+  - apply (Go_at B t k st _ _ u t2); [assumption | assumption | apply IHG1; exact G2].
+Qed.
+
+Lemma go_ids B t pl l t' : Go B t pl l t' -> map fst l = map fst pl.
+Proof. intro G. induction G; simpl; congruence. Qed.
+
+Lemma go_expected C t pl l t' : Go C t pl l t' -> expected_log C t pl = (l, true).
+Proof.
+  intro G. induction G.
+  - reflexivity.
+  - cbn [expected_log]. unfold fires_at. rewrite H, IHG. reflexivity.
+  - cbn [expected_log]. unfold fires_at. rewrite H.
+    assert (L : Nat.ltb u C = true) by (apply Nat.ltb_lt; assumption). rewrite L, IHG. reflexivity.
+Qed.
+
+Lemma go_expected_cut C t p1 l tk k st r :
+  Go C t p1 l tk -> fires_at C tk st = None ->
+  expected_log C t (p1 ++ (k, st) :: r) = (l ++ [(k, tk)], false).
+Proof.
+  intros G F. induction G; cbn [app expected_log].
+  - rewrite F. reflexivity.
+  - unfold fires_at at 1. rewrite H, (IHG F). reflexivity.
+  - unfold fires_at at 1. rewrite H.
+    assert (L : Nat.ltb u C = true) by (apply Nat.ltb_lt; assumption). rewrite L, (IHG F). reflexivity.
+Qed.
+
+Lemma go_walk C t p1 l1 t1 p2 l2 :
+  Go (S C) t p1 l1 t1 -> Walk C t1 p2 l2 -> Walk C t (p1 ++ p2) (l1 ++ l2).
+Proof.
+  intros G W. induction G; cbn [app].
+  - exact W.
+  - apply W_now; [assumption | apply IHG; exact W].
+  - apply (W_go C t k st _ _ u); [assumption | lia | apply IHG; exact W].
+Qed.
+
+Lemma go_walk_all C t pl l t' : Go (S C) t pl l t' -> Walk C t pl l.
+Proof.
+  intro G. rewrite <- (app_nil_r pl), <- (app_nil_r l). apply (go_walk C t pl l t' [] [] G). constructor.
+Qed.
+
+(* the stage started at t is not over when the run is cut at C: due = when its Deferred is due *)
+Definition stops (C t : time) (st : stage) (due : option time) : Prop :=
+  (exists u, completes t st = At u /\ C <= u /\ due = Some u) \/ (completes t st = NeverC /\ due = None).
+
+Lemma stops_fires_none C t st due : stops C t st due -> fires_at C t st = None.
+Proof.
+  unfold fires_at. intros [[u (E & L & _)]|[E _]]; rewrite E; [|reflexivity].
+  assert (X : Nat.ltb u C = false) by (apply Nat.ltb_ge; exact L). rewrite X. reflexivity.
+Qed.
+
+Lemma stops_walk C t st due k r : stops C t st due -> Walk C t ((k, st) :: r) [(k, t)].
+Proof.
+  intros [[u (E & L & _)]|[E _]]; [apply (W_late C t k st r u E L) | apply W_never; exact E].
+Qed.
+
 (* ================= stages ================= *)
 Definition noraise (st : stage) : bool := negb (stage_raises st).
 Definition exc_of (st : stage) : option cls :=
-  match s_ret st with RRaise c => Some c | RLater _ f => f | _ => None end.
+  match s_ret st with RRaise c => Some c | RFired f => f | RLater _ f => f | RChained _ f => f | _ => None end.
 
 Lemma exc_of_none st : exc_of st = None <-> noraise st = true.
 Proof.
-  unfold exc_of, noraise, stage_raises. destruct (s_ret st) as [|c|d [c|]|]; simpl; split; congruence.
+  unfold exc_of, noraise, stage_raises.
+  destruct (s_ret st) as [|c|[c|]|d [c|]|d [c|]|]; simpl; split; congruence.
 Qed.
 
 Fixpoint count (f : stage -> bool) (l : list stage) : nat :=
@@ -86,93 +198,100 @@ Fixpoint count (f : stage -> bool) (l : list stage) : nat :=
 Lemma count_app f a b : count f (a ++ b) = count f a + count f b.
 Proof. induction a; simpl; lia. Qed.
 
-Lemma count_zero f l : count f l = 0 <-> forallb (fun x => negb (f x)) l = true.
-Proof.
-  induction l as [|x r IH]; simpl; [tauto|].
-  rewrite andb_true_iff, <- IH. destruct (f x); simpl; split; try lia; intuition congruence.
-Qed.
-
 Lemma note_now c m : m_now (note_failure c m) = m_now m.
 Proof. destruct c; reflexivity. Qed.
 Lemma note_log c m : m_log (note_failure c m) = m_log m.
 Proof. destruct c; reflexivity. Qed.
 
+(* how a stage that is Done completed *)
+Definition went (C : time) (t : time) (st : stage) (t' : time) : Prop :=
+  (completes t st = Immediately /\ t' = t) \/ (exists u, completes t st = At u /\ u < C /\ t' = u).
+
 Lemma run_stage_done C k st m c m' :
   run_stage C k st m = Done c m' ->
-  fires_at C (m_now m) st = Some (m_now m') /\ m_log m' = m_log m ++ [(k, m_now m)] /\ c = exc_of st
+  went C (m_now m) st (m_now m') /\ m_log m' = m_log m ++ [(k, m_now m)] /\ c = exc_of st
   /\ m_excs m' = m_excs m /\ m_fails m' = m_fails m
   /\ m_logged m' = m_logged m + b2n (s_logerr st)
   /\ m_dropped m' = m_dropped m + b2n (s_drop st)
   /\ m_pollers m' = m_pollers m + b2n (s_poll st).
 Proof.
-  unfold run_stage, fires_at, exc_of, start_stage. destruct (s_ret st) as [|x|d f|]; simpl.
-  - intro H; inversion H; subst; simpl; repeat split.
-  - intro H; inversion H; subst; simpl; repeat split.
-  - destruct (Nat.ltb (m_now m + d) C); intro H; inversion H; subst; simpl; repeat split.
-  - discriminate.
+  unfold run_stage, went, completes, exc_of, start_stage.
+  destruct (s_ret st) as [|x|f|d f|d f|]; simpl; try discriminate.
+  - intro H; inversion H; subst; simpl; split_ands; try reflexivity. left; split; reflexivity.
+  - intro H; inversion H; subst; simpl; split_ands; try reflexivity. left; split; reflexivity.
+  - intro H; inversion H; subst; simpl; split_ands; try reflexivity. left; split; reflexivity.
+  - destruct (Nat.ltb (m_now m + d) C) eqn:L; intro H; inversion H; subst; simpl; split_ands; try reflexivity.
+    right. exists (m_now m + d). apply Nat.ltb_lt in L. split_ands; [reflexivity | exact L | reflexivity].
+  - destruct (Nat.ltb (m_now m + d) C) eqn:L; intro H; inversion H; subst; simpl; split_ands; try reflexivity.
+    right. exists (m_now m + d). apply Nat.ltb_lt in L. split_ands; [reflexivity | exact L | reflexivity].
 Qed.
 
-Lemma run_stage_cut C k st m m' :
-  run_stage C k st m = Cut m' ->
-  fires_at C (m_now m) st = None /\ m_log m' = m_log m ++ [(k, m_now m)] /\ m_now m' = m_now m.
+Lemma run_stage_cut C k st m m' due f :
+  run_stage C k st m = Cut m' due f ->
+  stops C (m_now m) st due /\ m_log m' = m_log m ++ [(k, m_now m)] /\ m_now m' = m_now m /\ f = exc_of st.
 Proof.
-  unfold run_stage, fires_at, start_stage. destruct (s_ret st) as [|x|d f|]; simpl; try discriminate.
-  - destruct (Nat.ltb (m_now m + d) C); intro H; inversion H; subst; simpl; repeat split.
-  - intro H; inversion H; subst; simpl; repeat split.
+  unfold run_stage, stops, completes, exc_of, start_stage.
+  destruct (s_ret st) as [|x|f0|d f0|d f0|]; simpl; try discriminate.
+  - destruct (Nat.ltb (m_now m + d) C) eqn:L; intro H; inversion H; subst; simpl; split_ands; try reflexivity.
+    left. exists (m_now m + d). apply Nat.ltb_ge in L. split_ands; [reflexivity | exact L | reflexivity].
+  - destruct (Nat.ltb (m_now m + d) C) eqn:L; intro H; inversion H; subst; simpl; split_ands; try reflexivity.
+    left. exists (m_now m + d). apply Nat.ltb_ge in L. split_ands; [reflexivity | exact L | reflexivity].
+  - intro H; inversion H; subst; simpl; split_ands; try reflexivity. right. split; reflexivity.
 Qed.
 
-Lemma expected_log_fire C t k st r t' :
-  fires_at C t st = Some t' ->
-  expected_log C t ((k, st) :: r) = ((k, t) :: fst (expected_log C t' r), snd (expected_log C t' r)).
-Proof. simpl. intros ->. destruct (expected_log C t' r); reflexivity. Qed.
-
-Lemma expected_log_cut C t k st r :
-  fires_at C t st = None -> expected_log C t ((k, st) :: r) = ([(k, t)], false).
-Proof. simpl. intros ->. reflexivity. Qed.
+Lemma go_cons C t k st t1 r l t' :
+  went C t st t1 -> Go C t1 r l t' -> Go C t ((k, st) :: r) ((k, t) :: l) t'.
+Proof.
+  intros [[E ->]|[u (E & L & ->)]] G; [apply Go_now | apply (Go_at C t k st r l u t')]; assumption.
+Qed.
 
 (* ================= the cleanups: induction over the list ================= *)
+Lemma merge_none c last : merge c last = None <-> c = None /\ last = None.
+Proof. destruct c, last; simpl; split; try (intros [? ?]); try split; congruence. Qed.
+
 Lemma run_cleanups_spec C : forall cs last m,
   match run_cleanups C cs last m with
   | CDone last' m' =>
-      snd (expected_log C (m_now m) cs) = true
-      /\ m_log m' = m_log m ++ fst (expected_log C (m_now m) cs)
+      (exists L, Go C (m_now m) cs L (m_now m') /\ m_log m' = m_log m ++ L)
       /\ (last' = None <-> last = None /\ forallb (fun ks => noraise (snd ks)) cs = true)
       /\ m_excs m' = m_excs m /\ m_fails m' = m_fails m
       /\ m_logged m' = m_logged m + count s_logerr (map snd cs)
       /\ m_dropped m' = m_dropped m + count s_drop (map snd cs)
       /\ m_pollers m' = m_pollers m + count s_poll (map snd cs)
-  | CCut m' n =>
-      snd (expected_log C (m_now m) cs) = false
-      /\ m_log m' = m_log m ++ fst (expected_log C (m_now m) cs)
-      /\ n < length cs
+  | CCut m' due f rest last' =>
+      exists pl1 k st L,
+        cs = pl1 ++ (k, st) :: rest /\ Go C (m_now m) pl1 L (m_now m')
+        /\ m_log m' = m_log m ++ L ++ [(k, m_now m')] /\ stops C (m_now m') st due /\ f = exc_of st
   end.
 Proof.
   induction cs as [|[k st] r IH]; intros last m.
-  - simpl. rewrite app_nil_r, !Nat.add_0_r. split_ands; tauto || reflexivity.
-  - cbn [run_cleanups]. destruct (run_stage C k st m) as [c m1|m1] eqn:E.
-    + apply run_stage_done in E as (Hf & Hl & Hc & He & Hn & H1 & H2 & H3).
-      rewrite (expected_log_fire _ _ _ _ _ _ Hf). cbn [fst snd].
-      generalize (IH (match c with Some x => Some x | None => last end) m1).
-      destruct (run_cleanups C r (match c with Some x => Some x | None => last end) m1) as [last' m'|m' n].
-      * intros (I1 & I2 & I3 & I4 & I5 & I6 & I7 & I8).
-        cbn [fst snd]. split_ands; [exact I1 | ..].
-        -- rewrite I2, Hl, <- app_assoc. reflexivity.
-        -- split.
-           ++ intro L. apply I3 in L as [L1 L2]. cbn [forallb snd].
-           destruct c as [x|]; [discriminate|]. split; [exact L1|].
-           rewrite L2, andb_true_r. apply exc_of_none. symmetry; exact Hc.
-           ++ intros [L1 L2]. cbn [forallb snd] in L2. apply andb_true_iff in L2 as [L2 L3].
-           apply I3. split; [|exact L3]. apply exc_of_none in L2. rewrite <- Hc in L2. rewrite L2. exact L1.
+  - simpl. rewrite !Nat.add_0_r. split_ands; try reflexivity.
+    + exists []. split; [constructor | rewrite app_nil_r; reflexivity].
+    + tauto.
+  - cbn [run_cleanups]. destruct (run_stage C k st m) as [c m1|m1 due f] eqn:E.
+    + apply run_stage_done in E as (Hw & Hl & Hc & He & Hn & H1 & H2 & H3).
+      generalize (IH (merge c last) m1).
+      destruct (run_cleanups C r (merge c last) m1) as [last' m'|m' due f rest last'].
+      * intros ([L [G I2]] & I3 & I4 & I5 & I6 & I7 & I8). split_ands.
+        -- exists ((k, m_now m) :: L). split; [apply (go_cons C _ k st _ _ _ _ Hw G)|].
+           rewrite I2, Hl, <- app_assoc. reflexivity.
+        -- rewrite I3, merge_none. cbn [forallb snd]. rewrite andb_true_iff, <- exc_of_none, <- Hc. tauto.
         -- congruence.
         -- congruence.
         -- cbn [map snd count]. lia.
         -- cbn [map snd count]. lia.
         -- cbn [map snd count]. lia.
-      * intros (I1 & I2 & I3). cbn [fst snd]. split_ands; [exact I1 | ..].
-        -- rewrite I2, Hl, <- app_assoc. reflexivity.
-        -- simpl. lia.
-    + apply run_stage_cut in E as (Hf & Hl & _).
-      rewrite (expected_log_cut _ _ _ _ _ Hf). cbn [fst snd]. split_ands; [reflexivity | exact Hl | simpl; lia].
+      * intros (pl1 & k' & st' & L & E1 & G & I2 & I3 & I4).
+        exists ((k, st) :: pl1), k', st', ((k, m_now m) :: L). split_ands.
+        -- rewrite E1. reflexivity.
+        -- apply (go_cons C _ k st _ _ _ _ Hw G).
+        -- rewrite I2, Hl, <- !app_assoc. reflexivity.
+        -- exact I3.
+        -- exact I4.
+    + apply run_stage_cut in E as (Hs & Hl & Hn & Hf).
+      exists [], k, st, []. rewrite Hn. split_ands; try assumption.
+      * reflexivity.
+      * constructor.
 Qed.
 
 (* ================= the invariant of the stage chain ================= *)
@@ -209,117 +328,199 @@ Proof.
     rewrite R, andb_true_r. simpl. rewrite He, Hn. split_ands; try tauto; lia.
 Qed.
 
-Lemma stage_step C k st ex m :
-  Acc ex m ->
-  match run_stage C k st m with
-  | Done c m' =>
-      fires_at C (m_now m) st = Some (m_now m') /\ m_log m' = m_log m ++ [(k, m_now m)]
-      /\ c = exc_of st /\ Acc (ex ++ [st]) (note_failure c m')
-  | Cut m' => fires_at C (m_now m) st = None /\ m_log m' = m_log m ++ [(k, m_now m)]
-  end.
-Proof.
-  intro A. destruct (run_stage C k st m) as [c m'|m'] eqn:E.
-  - apply run_stage_done in E as (Hf & Hl & Hc & He & Hn & H1 & H2 & H3).
-    split_ands; try assumption. subst c. eapply Acc_note; eassumption.
-  - apply run_stage_cut in E as (Hf & Hl & _). split; assumption.
-Qed.
-
 Definition cleanup_plan (p : program) : list (nat * stage) := rev (number_from 0 (i_cleanups p)).
 
 Lemma forallb_map {A B} (f : B -> bool) (g : A -> B) l : forallb f (map g l) = forallb (fun x => f (g x)) l.
 Proof. induction l; simpl; congruence. Qed.
 
-Lemma clean_up_spec C p ex m :
-  Acc ex m ->
-  match clean_up C p m with
-  | Completed m' =>
-      snd (expected_log C (m_now m) (cleanup_plan p)) = true
-      /\ m_log m' = m_log m ++ fst (expected_log C (m_now m) (cleanup_plan p))
-      /\ Acc (ex ++ map snd (cleanup_plan p)) m'
-  | Stopped m' n =>
-      snd (expected_log C (m_now m) (cleanup_plan p)) = false
-      /\ m_log m' = m_log m ++ fst (expected_log C (m_now m) (cleanup_plan p))
-      /\ n < length (i_cleanups p)
+(* what is still to do once the Deferred somebody waits for has fired (with f) *)
+Definition todo (p : program) (w : waiting) (f : option cls) : list (nat * stage) :=
+  match w with
+  | WSetup => match f with
+              | Some _ => cleanup_plan p
+              | None => (id_body, i_body p) :: (id_teardown, i_teardown p) :: cleanup_plan p
+              end
+  | WBody => (id_teardown, i_teardown p) :: cleanup_plan p
+  | WTeardown => cleanup_plan p
+  | WCleanup rest _ => rest
   end.
+
+(* a piece of the callback graph, entered in state m with the stages T ahead, behaves: either all of T went
+   through, or it is waiting at some stage of T and what is still to do is the rest of T *)
+Definition ChainOK (C : time) (p : program) (T : list (nat * stage)) (m : sim) (r : rres) : Prop :=
+  match r with
+  | Completed m' => exists L, Go C (m_now m) T L (m_now m') /\ m_log m' = m_log m ++ L
+  | Stopped m' n due f w =>
+      exists pl1 k st L,
+        T = pl1 ++ (k, st) :: todo p w f /\ Go C (m_now m) pl1 L (m_now m')
+        /\ m_log m' = m_log m ++ L ++ [(k, m_now m')] /\ stops C (m_now m') st due /\ f = exc_of st
+  end.
+Definition ChainAcc (T : list (nat * stage)) (m : sim) (r : rres) : Prop :=
+  forall ex, Acc ex m -> match r with Completed m' => Acc (ex ++ map snd T) m' | Stopped _ _ _ _ _ => True end.
+
+Lemma chainok_note C p T c m r : ChainOK C p T (note_failure c m) r <-> ChainOK C p T m r.
+Proof. unfold ChainOK. rewrite note_now, note_log. tauto. Qed.
+
+Lemma k_cleanups_ok C p cs last m :
+  ChainOK C p cs m (k_cleanups C cs last m)
+  /\ (last = None -> ChainAcc cs m (k_cleanups C cs last m)).
 Proof.
-  intros (A1 & A2 & A3 & A4 & A5). unfold clean_up. fold (cleanup_plan p).
-  generalize (run_cleanups_spec C (cleanup_plan p) None m).
-  destruct (run_cleanups C (cleanup_plan p) None m) as [last m'|m' n].
-  - intros (I1 & I2 & I3 & I4 & I5 & I6 & I7 & I8). split_ands.
-    + exact I1.
-    + rewrite note_log. exact I2.
-    + unfold Acc. rewrite forallb_app, !count_app, forallb_map.
-      destruct last as [x|]; simpl.
-      * assert (R : forallb (fun ks => noraise (snd ks)) (cleanup_plan p) = false).
-        { destruct (forallb (fun ks => noraise (snd ks)) (cleanup_plan p)) eqn:F; [|reflexivity].
+  unfold k_cleanups. generalize (run_cleanups_spec C cs last m).
+  destruct (run_cleanups C cs last m) as [last' m'|m' due f rest last'].
+  - intros ([L [G I2]] & I3 & I4 & I5 & I6 & I7 & I8). split.
+    + exists L. rewrite note_now, note_log. split; assumption.
+    + intros -> ex (A1 & A2 & A3 & A4 & A5). unfold Acc.
+      rewrite forallb_app, !count_app, forallb_map.
+      destruct last' as [x|]; simpl.
+      * assert (R : forallb (fun ks => noraise (snd ks)) cs = false).
+        { destruct (forallb (fun ks => noraise (snd ks)) cs) eqn:F; [|reflexivity].
           destruct I3 as [_ I3]. discriminate I3. split; reflexivity. }
         rewrite R, andb_false_r. split_ands; try lia.
         all: split; intro HH; try discriminate HH; destruct (m_excs m'); discriminate HH.
-      * assert (R : forallb (fun ks => noraise (snd ks)) (cleanup_plan p) = true).
-        { apply I3. reflexivity. }
+      * assert (R : forallb (fun ks => noraise (snd ks)) cs = true) by (apply I3; reflexivity).
         rewrite R, andb_true_r, I4, I5. split_ands; try tauto; lia.
-  - intros (I1 & I2 & I3). split_ands; try assumption.
-    unfold cleanup_plan in I3. rewrite rev_length in I3.
-    assert (L : forall k l, length (number_from k l) = length l).
-    { intros k l; revert k; induction l; intro k; simpl; [reflexivity | rewrite IHl; reflexivity]. }
-    rewrite L in I3. exact I3.
+  - intros (pl1 & k & st & L & E1 & G & I2 & I3 & I4). split; [|intros _ ex _; exact I].
+    exists pl1, k, st, L. cbn [todo]. split_ands; assumption.
 Qed.
 
-(* ================= _run_deferred ================= *)
-Lemma plan_failed_setup p :
-  noraise (i_setup p) = false -> plan p = (id_setup, i_setup p) :: cleanup_plan p.
-Proof. unfold plan, noraise, cleanup_plan. destruct (stage_raises (i_setup p)); [reflexivity | discriminate]. Qed.
-
-Lemma plan_good_setup p :
-  noraise (i_setup p) = true ->
-  plan p = (id_setup, i_setup p) :: (id_body, i_body p) :: (id_teardown, i_teardown p) :: cleanup_plan p.
-Proof. unfold plan, noraise, cleanup_plan. destruct (stage_raises (i_setup p)); [discriminate | reflexivity]. Qed.
-
-Lemma run_deferred_spec C p :
-  match run_deferred C p with
-  | Completed m => expected_log C 0 (plan p) = (m_log m, true) /\ Acc (map snd (plan p)) m
-  | Stopped m n => expected_log C 0 (plan p) = (m_log m, false) /\ n <= length (i_cleanups p)
-  end.
+(* one stage, then a continuation K that has been shown to behave *)
+Lemma stage_then C p k st (T : option cls -> list (nat * stage)) (K : option cls -> sim -> rres) w nleft m :
+  (forall c m', ChainOK C p (T c) (note_failure c m') (K c m') /\ ChainAcc (T c) (note_failure c m') (K c m')) ->
+  (forall f, todo p w f = T f) ->
+  let r := match run_stage C k st m with Done c m' => K c m' | Cut m' due f => Stopped m' nleft due f w end in
+  ChainOK C p ((k, st) :: T (exc_of st)) m r /\ ChainAcc ((k, st) :: T (exc_of st)) m r.
 Proof.
-  unfold run_deferred.
-  generalize (stage_step C id_setup (i_setup p) [] sim0 Acc0).
-  destruct (run_stage C id_setup (i_setup p) sim0) as [c m1|m1].
-  2:{ intros [Hf Hl]. split; [|lia].
-      assert (E : exists r, plan p = (id_setup, i_setup p) :: r) by (unfold plan; eauto).
-      destruct E as [r ->]. rewrite (expected_log_cut _ _ _ _ _ Hf), Hl. reflexivity. }
-  intros (Hf1 & Hl1 & Hc1 & A1). cbn [app] in A1.
-  destruct c as [x|].
-  - (* set_up_done: failed setUp, straight to the cleanups *)
-    assert (N : noraise (i_setup p) = false).
-    { destruct (noraise (i_setup p)) eqn:N; [|reflexivity]. apply exc_of_none in N. congruence. }
-    rewrite (plan_failed_setup p N), (expected_log_fire _ _ _ _ _ _ Hf1).
-    generalize (clean_up_spec C p _ _ A1). rewrite note_now, note_log.
-    destruct (clean_up C p (note_failure (Some x) m1)) as [m'|m' n].
-    + intros (I1 & I2 & I3). rewrite I1 at 1. cbn [fst snd map]. split; [|exact I3].
-      rewrite I2, Hl1. reflexivity.
-    + intros (I1 & I2 & I3). rewrite I1 at 1. cbn [fst snd]. split; [|lia].
-      rewrite I2, Hl1. reflexivity.
-  - assert (N : noraise (i_setup p) = true) by (apply exc_of_none; congruence).
-    rewrite (plan_good_setup p N), (expected_log_fire _ _ _ _ _ _ Hf1).
-    cbn [note_failure] in A1.
-    generalize (stage_step C id_body (i_body p) _ m1 A1).
-    destruct (run_stage C id_body (i_body p) m1) as [c2 m2|m2].
-    2:{ intros [Hf Hl]. split; [|lia].
-        rewrite (expected_log_cut _ _ _ _ _ Hf). cbn [fst snd]. rewrite Hl, Hl1. reflexivity. }
-    intros (Hf2 & Hl2 & Hc2 & A2). cbn [app] in A2.
-    rewrite (expected_log_fire _ _ _ _ _ _ Hf2). cbn [fst snd].
-    generalize (stage_step C id_teardown (i_teardown p) _ _ A2). rewrite note_now, note_log.
-    destruct (run_stage C id_teardown (i_teardown p) (note_failure c2 m2)) as [c3 m3|m3].
-    2:{ intros [Hf Hl]. split; [|lia].
-        rewrite (expected_log_cut _ _ _ _ _ Hf). cbn [fst snd]. rewrite Hl, Hl2, Hl1. reflexivity. }
-    intros (Hf3 & Hl3 & Hc3 & A3). cbn [app] in A3.
-    rewrite (expected_log_fire _ _ _ _ _ _ Hf3). cbn [fst snd].
-    generalize (clean_up_spec C p _ _ A3). rewrite note_now, note_log.
-    destruct (clean_up C p (note_failure c3 m3)) as [m'|m' n].
-    + intros (I1 & I2 & I3). rewrite I1 at 1. cbn [fst snd map]. split; [|exact I3].
-      rewrite I2, Hl3, Hl2, Hl1. reflexivity.
-    + intros (I1 & I2 & I3). rewrite I1 at 1. cbn [fst snd]. split; [|lia].
-      rewrite I2, Hl3, Hl2, Hl1. reflexivity.
+  intros HK HT. cbv zeta. destruct (run_stage C k st m) as [c m1|m1 due f] eqn:E.
+  - apply run_stage_done in E as (Hw & Hl & Hc & He & Hn & H1 & H2 & H3). subst c.
+    destruct (HK (exc_of st) m1) as [OK AC]. apply chainok_note in OK. split.
+    + destruct (K (exc_of st) m1) as [m'|m' n due f w'].
+      * destruct OK as [L [G I2]]. exists ((k, m_now m) :: L). split; [apply (go_cons C _ k st _ _ _ _ Hw G)|].
+        rewrite I2, Hl, <- app_assoc. reflexivity.
+      * destruct OK as (pl1 & k' & st' & L & E1 & G & I2 & I3 & I4).
+        exists ((k, st) :: pl1), k', st', ((k, m_now m) :: L). split_ands; try assumption.
+        -- rewrite E1. reflexivity.
+        -- apply (go_cons C _ k st _ _ _ _ Hw G).
+        -- rewrite I2, Hl, <- !app_assoc. reflexivity.
+    + intros ex A. pose proof (Acc_note ex m st m1 A He Hn H1 H2 H3) as A'.
+      specialize (AC _ A'). destruct (K (exc_of st) m1); [|exact I].
+      cbn [map snd]. rewrite <- app_assoc in AC. exact AC.
+  - apply run_stage_cut in E as (Hs & Hl & Hn & Hf). split; [|intros ex _; exact I].
+    exists [], k, st, []. rewrite Hn, HT, Hf. split_ands; try assumption; try reflexivity. constructor.
+Qed.
+
+Lemma clean_up_ok C p m :
+  ChainOK C p (cleanup_plan p) m (clean_up C p m) /\ ChainAcc (cleanup_plan p) m (clean_up C p m).
+Proof.
+  unfold clean_up. fold (cleanup_plan p).
+  destruct (k_cleanups_ok C p (cleanup_plan p) None m) as [A B]. split; [exact A | apply B; reflexivity].
+Qed.
+
+Definition after_teardown (p : program) (c : option cls) := cleanup_plan p.
+Definition after_body (p : program) (c : option cls) := (id_teardown, i_teardown p) :: cleanup_plan p.
+Definition after_setup (p : program) (c : option cls) :=
+  match c with
+  | Some _ => cleanup_plan p
+  | None => (id_body, i_body p) :: (id_teardown, i_teardown p) :: cleanup_plan p
+  end.
+
+Lemma tear_down_ok C p m :
+  ChainOK C p ((id_teardown, i_teardown p) :: cleanup_plan p) m (tear_down C p m)
+  /\ ChainAcc ((id_teardown, i_teardown p) :: cleanup_plan p) m (tear_down C p m).
+Proof.
+  apply (stage_then C p id_teardown (i_teardown p) (after_teardown p) (k_teardown C p) WTeardown).
+  - intros c m'. apply clean_up_ok.
+  - reflexivity.
+Qed.
+
+Lemma run_test_ok C p m :
+  ChainOK C p (after_setup p None) m (run_test C p m) /\ ChainAcc (after_setup p None) m (run_test C p m).
+Proof.
+  apply (stage_then C p id_body (i_body p) (after_body p) (k_body C p) WBody).
+  - intros c m'. apply tear_down_ok.
+  - reflexivity.
+Qed.
+
+Lemma set_up_done_ok C p c m :
+  ChainOK C p (after_setup p c) (note_failure c m) (set_up_done C p c m)
+  /\ ChainAcc (after_setup p c) (note_failure c m) (set_up_done C p c m).
+Proof. destruct c as [x|]; [apply clean_up_ok | apply run_test_ok]. Qed.
+
+Lemma plan_after_setup p : plan p = (id_setup, i_setup p) :: after_setup p (exc_of (i_setup p)).
+Proof.
+  unfold plan, after_setup. fold (cleanup_plan p).
+  destruct (exc_of (i_setup p)) as [x|] eqn:E.
+  - assert (R : stage_raises (i_setup p) = true).
+    { destruct (stage_raises (i_setup p)) eqn:S; [reflexivity|].
+      assert (N : noraise (i_setup p) = true) by (unfold noraise; rewrite S; reflexivity).
+      apply exc_of_none in N. congruence. }
+    rewrite R. reflexivity.
+  - apply exc_of_none in E. unfold noraise in E. apply negb_true_iff in E. rewrite E. reflexivity.
+Qed.
+
+(* _run_deferred *)
+Lemma run_deferred_ok C p :
+  ChainOK C p (plan p) sim0 (run_deferred C p) /\ ChainAcc (plan p) sim0 (run_deferred C p).
+Proof.
+  rewrite plan_after_setup. unfold run_deferred.
+  apply (stage_then C p id_setup (i_setup p) (after_setup p) (set_up_done C p) WSetup).
+  - intros c m'. apply set_up_done_ok.
+  - intros [x|]; reflexivity.
+Qed.
+
+(* the outstanding Deferred fires after all *)
+Lemma resume_ok C p w f m : ChainOK C p (todo p w f) m (resume_at C p w f m).
+Proof.
+  destruct w as [| | |rest last]; cbn [resume_at todo].
+  - apply (chainok_note C p _ f m). apply (set_up_done_ok C p f m).
+  - unfold k_body. apply (chainok_note C p _ f m). apply tear_down_ok.
+  - unfold k_teardown. apply (chainok_note C p _ f m). apply clean_up_ok.
+  - apply k_cleanups_ok.
+Qed.
+
+(* ================= the passes after the cut ================= *)
+(* somebody waits for a stage of the plan; everything before it went through *)
+Definition Pend (C : time) (p : program) (log : list (nat * time)) (due f : option _) (w : waiting) : Prop :=
+  exists pl1 k st L tk,
+    plan p = pl1 ++ (k, st) :: todo p w f /\ Go (S C) 0 pl1 L tk /\ log = L ++ [(k, tk)]
+    /\ stops C tk st due /\ f = exc_of st.
+
+Lemma pend_walk C p log due f w : Pend C p log due f w -> Walk C 0 (plan p) log.
+Proof.
+  intros (pl1 & k & st & L & tk & E & G & -> & Hs & _). rewrite E.
+  apply (go_walk C 0 pl1 L tk). exact G. apply (stops_walk C tk st due k _ Hs).
+Qed.
+
+Lemma settle_log n m : m_log (settle n m) = m_log m.
+Proof. destruct n; reflexivity. Qed.
+
+Lemma late_walk C p : forall n m nleft due f w,
+  Pend C p (m_log m) due f w -> Walk C 0 (plan p) (m_log (fst (late n C p m nleft due f w))).
+Proof.
+  induction n as [|n IH]; intros m nleft due f w P; cbn [late].
+  - apply (pend_walk C p _ due f w P).
+  - destruct (option_eqb Nat.eqb due (Some C)) eqn:Q.
+    + apply (option_eqb_spec Nat.eqb Nat.eqb_eq) in Q. subst due.
+      destruct P as (pl1 & k & st & L & tk & E & G & El & Hs & Ef).
+      assert (Ec : completes tk st = At C).
+      { destruct Hs as [[u (Ec & _ & Eu)]|[_ Eu]]; [|discriminate Eu]. inversion Eu; subst. exact Ec. }
+      assert (G1 : Go (S C) 0 (pl1 ++ [(k, st)]) (L ++ [(k, tk)]) C).
+      { apply (go_app (S C) 0 pl1 L tk); [exact G|].
+        apply (Go_at (S C) tk k st [] [] C C Ec); [lia | constructor]. }
+      generalize (resume_ok C p w f (advance C m)).
+      destruct (resume_at C p w f (advance C m)) as [m2|m2 n2 due2 f2 w2]; cbn [ChainOK advance m_now m_log].
+      * intros [L2 [G2 I2]]. cbn [fst]. rewrite settle_log, I2, El.
+        assert (Ep : plan p = (pl1 ++ [(k, st)]) ++ todo p w f).
+        { rewrite E, <- app_assoc. reflexivity. }
+        rewrite Ep. apply (go_walk_all C 0 _ _ (m_now m2)).
+        apply (go_app (S C) 0 _ _ C); [exact G1|]. apply (go_weaken C (S C)); [lia | exact G2].
+      * intros (pl2 & k2 & st2 & L2 & E2 & G2 & I2 & Hs2 & Ef2). apply IH.
+        exists ((pl1 ++ [(k, st)]) ++ pl2), k2, st2, ((L ++ [(k, tk)]) ++ L2), (m_now m2). split_ands.
+        -- rewrite E, E2, <- !app_assoc. reflexivity.
+        -- apply (go_app (S C) 0 _ _ C); [exact G1|]. apply (go_weaken C (S C)); [lia | exact G2].
+        -- rewrite I2, El, <- !app_assoc. reflexivity.
+        -- exact Hs2.
+        -- exact Ef2.
+    + cbn [fst]. apply (pend_walk C p _ due f w P).
 Qed.
 
 (* ================= choosing the reported exception (runtest.py:108-117) ================= *)
@@ -415,19 +616,19 @@ Proof.
     + apply pick_nil_iff in P. apply (successful_iff p u m I) in P. unfold ok in S. congruence.
 Qed.
 
-Lemma events_stopped p C stop n m :
-  r_events (finish p false 0 stop n (after_cut C m)) = [StartTest; AddError; StopTest].
+Lemma events_stopped p stop n m :
+  r_events (finish p false 0 stop n (note_cut m)) = [StartTest; AddError; StopTest].
 Proof.
-  rewrite finish_events. unfold successful, final_excs. cbn [andb after_cut m_excs m_logged].
+  rewrite finish_events. unfold successful, final_excs. cbn [andb note_cut m_excs m_logged].
   rewrite <- app_assoc. cbn [app].
   destruct (pick_ends_err (m_excs m)
-              (repeat_err (m_logged m) ++ repeat_err 0 ++ (if dirty p (after_cut C m) then [CErr] else [])))
+              (repeat_err (m_logged m) ++ repeat_err 0 ++ (if dirty p (note_cut m) then [CErr] else [])))
     as [c [P E]].
   - apply Forall_app. split; [|apply Forall_app; split].
     + unfold repeat_err. apply Forall_forall. intros x Hx. apply repeat_spec in Hx. congruence.
     + constructor.
-    + destruct (dirty p (after_cut C m)); repeat constructor.
-  - fold (after_cut C m). rewrite P, E. reflexivity.
+    + destruct (dirty p (note_cut m)); repeat constructor.
+  - fold (note_cut m). rewrite P, E. reflexivity.
 Qed.
 
 Lemma dirty_false p m : dirty p m = false <-> junk_of p m = [] /\ m_pollers m = 0.
@@ -574,6 +775,33 @@ Proof. unfold finish. cbn [r_observers]. apply observers_restored. Qed.
 
 Definition stop_flag (p : program) : bool := match cut_kind p with KInterrupt => true | KTimeout => false end.
 
+Lemma Acc_settle ex n m : Acc ex m -> Acc ex (settle n m).
+Proof. destruct n; [tauto|]. unfold Acc. simpl. tauto. Qed.
+Lemma settle_fails n m : m_fails (settle n m) = m_fails m.
+Proof. destruct n; reflexivity. Qed.
+Lemma settle_dropped n m : m_dropped (settle n m) = m_dropped m.
+Proof. destruct n; reflexivity. Qed.
+
+(* the Deferred of _run_deferred fired iff every planned stage fired before the cut *)
+Lemma completed_iff p :
+  match run_deferred (cut_instant p) p with
+  | Completed m => completed p = true /\ Acc (map snd (plan p)) m
+                   /\ exists L, Go (cut_instant p) 0 (plan p) L (m_now m) /\ m_log m = L
+  | Stopped m n due f w => completed p = false /\ Pend (cut_instant p) p (m_log m) due f w
+  end.
+Proof.
+  destruct (run_deferred_ok (cut_instant p) p) as [OK AC]. specialize (AC [] Acc0).
+  destruct (run_deferred (cut_instant p) p) as [m|m n due f w].
+  - destruct OK as [L [G I2]]. cbn [m_now m_log sim0 app] in *. split_ands.
+    + unfold completed. rewrite (go_expected _ _ _ _ _ G). reflexivity.
+    + exact AC.
+    + exists L. split; assumption.
+  - destruct OK as (pl1 & k & st & L & E & G & I2 & Hs & Ef). cbn [m_now m_log sim0 app] in *. split.
+    + unfold completed. rewrite E, (go_expected_cut _ _ _ _ _ k st _ G (stops_fires_none _ _ _ _ Hs)). reflexivity.
+    + exists pl1, k, st, L, (m_now m). split_ands; try assumption.
+      apply (go_weaken (cut_instant p)); [lia | exact G].
+Qed.
+
 (* the three ways a run can end *)
 Lemma model_cases p :
   (completed p = true
@@ -586,17 +814,17 @@ Lemma model_cases p :
       /\ o_cleanups_left (model p) = 0)
   \/ (completed p = false
       /\ o_events (model p) = [StartTest; AddError; StopTest]
-      /\ o_stop (model p) = stop_flag p
-      /\ o_cleanups_left (model p) <= length (i_cleanups p)).
+      /\ o_stop (model p) = stop_flag p).
 Proof.
   unfold model, run. cbn [o_events o_unrun o_stop o_cleanups_left].
-  generalize (run_deferred_spec (cut_instant p) p).
-  destruct (run_deferred (cut_instant p) p) as [m|m n].
-  - intros [E A].
-    assert (Cp : completed p = true) by (unfold completed; rewrite E; reflexivity).
-    destruct A as (A1 & A2 & A3 & A4 & A5).
+  generalize (completed_iff p).
+  destruct (run_deferred (cut_instant p) p) as [m|m n due f w].
+  - intros (Cp & A & _).
     rewrite finish_unrun, finish_stop, finish_left.
-    destruct (events_completed p (m_dropped m) false 0 m A2) as [[S Ev]|[S [c Ev]]].
+    rewrite <- (settle_fails (iterations p) m), <- (settle_dropped (iterations p) m).
+    apply (Acc_settle _ (iterations p)) in A. set (ms := settle (iterations p) m) in *.
+    destruct A as (A1 & A2 & A3 & A4 & A5).
+    destruct (events_completed p (m_dropped ms) false 0 ms A2) as [[S Ev]|[S [c Ev]]].
     + left. split; [exact Cp|]. split; [exact Ev|].
       unfold successful in S. rewrite !andb_true_iff, !Nat.eqb_eq, negb_true_iff in S.
       destruct S as [[[S1 S2] S3] S4]. apply dirty_false in S4 as [S4 S5].
@@ -608,33 +836,40 @@ Proof.
         -- rewrite <- A5. exact S5.
       * rewrite S4. reflexivity.
     + right. left. split; [exact Cp|]. split; [exists c; exact Ev|]. split_ands; try reflexivity.
-      destruct (all_clean p && Nat.eqb (length (junk_of p m)) 0) eqn:X; [|reflexivity].
+      destruct (all_clean p && Nat.eqb (length (junk_of p ms)) 0) eqn:X; [|reflexivity].
       exfalso. apply andb_true_iff in X as [X1 X2].
       apply all_clean_list in X1 as (X1 & X3 & X4 & X5). apply Nat.eqb_eq in X2.
       apply length_zero_iff_nil in X2.
-      assert (S' : successful p (Nat.eqb (m_fails m) 0) (m_dropped m) m = true).
+      assert (S' : successful p (Nat.eqb (m_fails ms) 0) (m_dropped ms) ms = true).
       { unfold successful. rewrite !andb_true_iff, !Nat.eqb_eq, negb_true_iff. split_ands.
         - apply A1. exact X1.
         - rewrite A3. exact X3.
         - rewrite A4. exact X4.
         - apply dirty_false. split; [exact X2 | rewrite A5; exact X5]. }
       congruence.
-  - intros [E Hn]. right. right.
-    rewrite finish_stop, finish_left.
-    split; [unfold completed; rewrite E; reflexivity|].
-    split; [apply events_stopped|]. split; [reflexivity | exact Hn].
+  - intros [Cp _]. right. right.
+    destruct (late (passes p) (cut_instant p) p (reach_cut (cut_instant p) m) n due f w) as [m1 n1].
+    rewrite finish_stop. split; [exact Cp|]. split; [apply events_stopped | reflexivity].
 Qed.
 
-Lemma model_log p : o_log (model p) = fst (expected_log (cut_instant p) 0 (plan p)).
+(* clause 1: the stage log is a walk along the plan *)
+Lemma model_log p : Walk (cut_instant p) 0 (plan p) (o_log (model p)).
 Proof.
-  unfold model, run. cbn [o_log]. generalize (run_deferred_spec (cut_instant p) p).
-  destruct (run_deferred (cut_instant p) p) as [m|m n]; intros [E _]; rewrite E, finish_log; reflexivity.
+  unfold model, run. cbn [o_log]. generalize (completed_iff p).
+  destruct (run_deferred (cut_instant p) p) as [m|m n due f w].
+  - intros (_ & _ & L & G & E). rewrite finish_log, settle_log, E.
+    apply (go_walk_all _ 0 _ _ (m_now m)). apply (go_weaken (cut_instant p)); [lia | exact G].
+  - intros [_ P].
+    pose proof (late_walk (cut_instant p) p (passes p) (reach_cut (cut_instant p) m) n due f w P) as W.
+    destruct (late (passes p) (cut_instant p) p (reach_cut (cut_instant p) m) n due f w) as [m1 n1].
+    rewrite finish_log. exact W.
 Qed.
 
 Lemma model_pending p : o_pending (model p) = 0.
 Proof.
   unfold model, run. cbn [o_pending].
-  destruct (run_deferred (cut_instant p) p); apply finish_pending.
+  destruct (run_deferred (cut_instant p) p); [apply finish_pending|].
+  destruct (late _ _ _ _ _ _ _ _). apply finish_pending.
 Qed.
 
 Lemma list_eqb_refl l : list_eqb Nat.eqb l l = true.
@@ -643,14 +878,11 @@ Proof. apply (list_eqb_spec Nat.eqb Nat.eqb_eq). reflexivity. Qed.
 Lemma model_observers p : o_observers_same (model p) = true.
 Proof.
   unfold model, run. cbn [o_observers_same].
-  destruct (run_deferred (cut_instant p) p); rewrite finish_observers; apply list_eqb_refl.
+  destruct (run_deferred (cut_instant p) p); [|destruct (late _ _ _ _ _ _ _ _)];
+    rewrite finish_observers; apply list_eqb_refl.
 Qed.
 
 (* -------- per clause -------- *)
-(* sequencing: a stage starts at the instant its predecessor fired, and only if it fired before the cut *)
-Lemma sequencing p : o_log (model p) = fst (expected_log (cut_instant p) 0 (plan p)).
-Proof. exact (model_log p). Qed.
-
 Lemma one_outcome_holds p :
   exists x, o_events (model p) = [StartTest; x; StopTest] /\ In x [AddSuccess; AddError; AddFailure; AddSkip].
 Proof.
@@ -674,13 +906,14 @@ Proof.
     + intros (Cp' & _). congruence.
 Qed.
 
-(* a timeout or an interrupt yields an error; an interrupt also asks the result to stop (and nothing else does) *)
+(* a timeout or an interrupt yields an error - also when the stages that were cut off still ran afterwards -;
+   an interrupt also asks the result to stop (and nothing else does) *)
 Lemma cut_is_error p :
   completed p = false ->
   o_events (model p) = [StartTest; AddError; StopTest]
   /\ (o_stop (model p) = true <-> cut_kind p = KInterrupt).
 Proof.
-  intro Cf. destruct (model_cases p) as [(Cp & _)|[(Cp & _)|(_ & E & S & _)]]; try congruence.
+  intro Cf. destruct (model_cases p) as [(Cp & _)|[(Cp & _)|(_ & E & S)]]; try congruence.
   split; [exact E|]. rewrite S. unfold stop_flag. destruct (cut_kind p); split; congruence.
 Qed.
 
@@ -701,11 +934,10 @@ Lemma cleanups_all_run p :
 Proof.
   intro Ct. split.
   - destruct (model_cases p) as [(_ & _ & _ & _ & _ & L)|[(_ & _ & _ & _ & L)|(Cp & _)]]; congruence.
-  - rewrite model_log. unfold completed in Ct. revert Ct. generalize 0 at 1 2. generalize (plan p).
-    induction l as [|[k st] r IH]; intros t Ct; [reflexivity|].
-    cbn [expected_log] in *. destruct (fires_at (cut_instant p) t st) as [t'|]; [|discriminate Ct].
-    specialize (IH t'). destruct (expected_log (cut_instant p) t' r) as [l b]. cbn [fst snd map] in *.
-    rewrite IH; [reflexivity | exact Ct].
+  - unfold model, run. cbn [o_log]. generalize (completed_iff p).
+    destruct (run_deferred (cut_instant p) p) as [m|m n due f w].
+    + intros (_ & _ & L & G & E). rewrite finish_log, settle_log, E. apply (go_ids _ _ _ _ _ G).
+    + intros [Cf _]. congruence.
 Qed.
 
 Theorem model_meets_spec p : spec_okb p (model p) = true.
@@ -722,55 +954,70 @@ Qed.
 Corollary model_meets_spec_wf p : wf p -> spec_okb p (model p) = true.
 Proof. intros _. apply model_meets_spec. Qed.
 
-(* ================= what the expected log says, in words ================= *)
-Lemma expected_log_first C t pl k u l : fst (expected_log C t pl) = (k, u) :: l -> u = t.
-Proof.
-  destruct pl as [|[k0 st] r]; simpl; [discriminate|].
-  destruct (fires_at C t st); [destruct (expected_log C t0 r)|]; simpl; intro H; inversion H; reflexivity.
-Qed.
-
-(* two consecutive entries: the later stage started at exactly the instant at which the earlier one fired *)
-Lemma expected_log_adjacent C : forall pl t l1 k1 t1 k2 t2 l2,
-  fst (expected_log C t pl) = l1 ++ (k1, t1) :: (k2, t2) :: l2 ->
-  exists st1, In (k1, st1) pl /\ fires_at C t1 st1 = Some t2.
-Proof.
-  induction pl as [|[k st] r IH]; intros t l1 k1 t1 k2 t2 l2 H.
-  - simpl in H. destruct l1; discriminate H.
-  - cbn [expected_log] in H. destruct (fires_at C t st) as [t'|] eqn:F.
-    + destruct (expected_log C t' r) as [l b] eqn:E. cbn [fst] in H.
-      destruct l1 as [|x l1]; cbn [app] in H; inversion H; subst.
-      * exists st. split; [left; reflexivity|].
-        assert (t2 = t').
-        { apply (expected_log_first C t' r k2 t2 l2). rewrite E. reflexivity. }
-        subst. exact F.
-      * destruct (IH t' l1 k1 t1 k2 t2 l2) as [st1 [Hin Hf]]; [rewrite E; reflexivity|].
-        exists st1. split; [right; exact Hin | exact Hf].
-    + cbn [fst] in H. destruct l1 as [|x [|y l1]]; discriminate H.
-Qed.
-
-(* a stage that fired did so at or after its start, strictly before the cut when it was asynchronous *)
-Lemma fires_at_bounds C t st t' :
-  fires_at C t st = Some t' ->
-  t <= t' /\ (forall d f, s_ret st = RLater d f -> t' = t + d /\ t' < C).
-Proof.
-  unfold fires_at. destruct (s_ret st) as [|c|d f|].
-  - intro H; inversion H; subst. split; [lia | discriminate].
-  - intro H; inversion H; subst. split; [lia | discriminate].
-  - destruct (Nat.ltb (t + d) C) eqn:L; [|discriminate]. apply Nat.ltb_lt in L.
-    intro H; inversion H; subst. split; [lia|]. intros d' f' E. inversion E; subst. split; [reflexivity | exact L].
-  - discriminate.
-Qed.
+(* ================= what a walk says, in words ================= *)
+Lemma walk_first C t pl k u l : Walk C t pl ((k, u) :: l) -> u = t /\ exists st r, pl = (k, st) :: r.
+Proof. intro W. inversion W; subst; split; try reflexivity; eauto. Qed.
 
 (* the stages that ran are an initial segment of the plan *)
-Lemma expected_log_prefix C : forall pl t,
-  exists rest, map fst pl = map fst (fst (expected_log C t pl)) ++ rest.
+Lemma walk_prefix C t pl l : Walk C t pl l -> exists rest, map fst pl = map fst l ++ rest.
 Proof.
-  induction pl as [|[k st] r IH]; intro t.
+  intro W.
+  induction W as [t0|t0 k0 st0 r0 l0 Hc W0 IH|t0 k0 st0 r0 l0 u0 Hc Hu W0 IH|t0 k0 st0 r0 u0 Hc Hu|t0 k0 st0 r0 Hc].
   - exists []. reflexivity.
-  - cbn [expected_log]. destruct (fires_at C t st) as [t'|].
-    + destruct (IH t') as [rest E]. destruct (expected_log C t' r) as [l b]. cbn [fst map] in *.
-      exists rest. rewrite E. reflexivity.
-    + exists (map fst r). reflexivity.
+  - destruct IH as [rest E]. exists rest. cbn [map fst app]. rewrite E. reflexivity.
+  - destruct IH as [rest E]. exists rest. cbn [map fst app]. rewrite E. reflexivity.
+  - exists (map fst r0). reflexivity.
+  - exists (map fst r0). reflexivity.
+Qed.
+
+(* two consecutive entries: the later stage started at exactly the instant at which the earlier one completed *)
+Lemma walk_adjacent C t pl l : Walk C t pl l ->
+  forall l1 k1 t1 k2 t2 l2, l = l1 ++ (k1, t1) :: (k2, t2) :: l2 ->
+  exists st1, In (k1, st1) pl
+              /\ ((completes t1 st1 = Immediately /\ t2 = t1) \/ (completes t1 st1 = At t2 /\ t2 <= C)).
+Proof.
+  intro W.
+  induction W as [t0|t0 k0 st0 r0 l0 Hc W0 IH|t0 k0 st0 r0 l0 u0 Hc Hu W0 IH|t0 k0 st0 r0 u0 Hc Hu|t0 k0 st0 r0 Hc];
+    intros l1 k1 t1 k2 t2 l2 E.
+  - destruct l1; discriminate E.
+  - destruct l1 as [|x l1]; cbn [app] in E; inversion E; subst.
+    + exists st0. split; [left; reflexivity|]. left. split; [assumption|].
+      apply (walk_first _ _ _ _ _ _ W0).
+    + destruct (IH l1 k1 t1 k2 t2 l2 eq_refl) as [st1 [Hin Hx]]. exists st1. split; [right; exact Hin | exact Hx].
+  - destruct l1 as [|x l1]; cbn [app] in E; inversion E; subst.
+    + exists st0. split; [left; reflexivity|]. right.
+      destruct (walk_first _ _ _ _ _ _ W0) as [-> _]. split; assumption.
+    + destruct (IH l1 k1 t1 k2 t2 l2 eq_refl) as [st1 [Hin Hx]]. exists st1. split; [right; exact Hin | exact Hx].
+  - destruct l1 as [|x [|y l1]]; discriminate E.
+  - destruct l1 as [|x [|y l1]]; discriminate E.
+Qed.
+
+(* when the chain of a Deferred-returning stage is over; "fired but paused" is no different from "not fired" *)
+Lemma completes_later t st :
+  (forall d f, s_ret st = RLater d f \/ s_ret st = RChained d f -> completes t st = At (t + d))
+  /\ (s_ret st = RNever -> completes t st = NeverC)
+  /\ (completes t st = Immediately ->
+      s_ret st = RReturn \/ (exists c, s_ret st = RRaise c) \/ (exists f, s_ret st = RFired f)).
+Proof.
+  unfold completes. split_ands.
+  - intros d f [E|E]; rewrite E; reflexivity.
+  - intros ->. reflexivity.
+  - destruct (s_ret st); try discriminate; eauto.
+Qed.
+
+Lemma fires_at_bounds C t st t' :
+  fires_at C t st = Some t' ->
+  t <= t' /\ (forall d f, s_ret st = RLater d f \/ s_ret st = RChained d f -> t' = t + d /\ t' < C).
+Proof.
+  unfold fires_at, completes. destruct (s_ret st) as [|c|f0|d f0|d f0|].
+  - intro H; inversion H; subst. split; [lia | intros d f [E|E]; discriminate E].
+  - intro H; inversion H; subst. split; [lia | intros d f [E|E]; discriminate E].
+  - intro H; inversion H; subst. split; [lia | intros d f [E|E]; discriminate E].
+  - destruct (Nat.ltb (t + d) C) eqn:L; [|discriminate]. apply Nat.ltb_lt in L.
+    intro H; inversion H; subst. split; [lia|]. intros d' f' [E|E]; inversion E; subst. split; [reflexivity | exact L].
+  - destruct (Nat.ltb (t + d) C) eqn:L; [|discriminate]. apply Nat.ltb_lt in L.
+    intro H; inversion H; subst. split; [lia|]. intros d' f' [E|E]; inversion E; subst. split; [reflexivity | exact L].
+  - discriminate.
 Qed.
 
 Lemma number_from_ids l : forall k, map fst (number_from k l) = map id_cleanup (seq k (length l)).
@@ -791,19 +1038,28 @@ Lemma sequencing_words p :
   (exists rest, map fst (plan p) = map fst (o_log (model p)) ++ rest)
   (* the first one starts at instant 0 *)
   /\ (forall k u l, o_log (model p) = (k, u) :: l -> k = id_setup /\ u = 0)
-  (* each further one starts at exactly the instant its predecessor fired, which was before the cut *)
+  (* each further one starts at exactly the instant its predecessor completed - at once, or when the chain of
+     the Deferred it returned was over, which was not after the cut instant *)
   /\ (forall l1 k1 t1 k2 t2 l2, o_log (model p) = l1 ++ (k1, t1) :: (k2, t2) :: l2 ->
-      exists st1, In (k1, st1) (plan p) /\ fires_at (cut_instant p) t1 st1 = Some t2 /\ t1 <= t2).
+      exists st1, In (k1, st1) (plan p)
+                  /\ ((completes t1 st1 = Immediately /\ t2 = t1)
+                      \/ (completes t1 st1 = At t2 /\ t2 <= cut_instant p))).
 Proof.
-  rewrite model_log. split_ands.
-  - apply expected_log_prefix.
-  - intros k u l H. split; [|apply (expected_log_first _ _ _ _ _ _ H)].
-    unfold plan in H. cbn [expected_log] in H.
-    destruct (fires_at (cut_instant p) 0 (i_setup p)); [destruct (expected_log _ _ _)|];
-      cbn [fst] in H; inversion H; reflexivity.
-  - intros l1 k1 t1 k2 t2 l2 H.
-    destruct (expected_log_adjacent _ _ _ _ _ _ _ _ _ H) as [st1 [Hin Hf]].
-    exists st1. split_ands; try assumption. apply (fires_at_bounds _ _ _ _ Hf).
+  pose proof (model_log p) as W. split_ands.
+  - apply (walk_prefix _ _ _ _ W).
+  - intros k u l E. rewrite E in W. destruct (walk_first _ _ _ _ _ _ W) as [-> (st & r & Ep)].
+    split; [|reflexivity]. unfold plan in Ep. inversion Ep. reflexivity.
+  - intros l1 k1 t1 k2 t2 l2 E. apply (walk_adjacent _ _ _ _ W l1 k1 t1 k2 t2 l2 E).
+Qed.
+
+(* a Deferred that is due exactly at the cut instant has lost: the run did not complete, whatever the reactor
+   still runs afterwards *)
+Lemma tie_loses p pl1 L tk k st r :
+  plan p = pl1 ++ (k, st) :: r -> Go (cut_instant p) 0 pl1 L tk -> completes tk st = At (cut_instant p) ->
+  completed p = false.
+Proof.
+  intros E G Ec. unfold completed. rewrite E, (go_expected_cut _ _ _ _ _ k st r G); [reflexivity|].
+  unfold fires_at. rewrite Ec, Nat.ltb_irrefl. reflexivity.
 Qed.
 
 (* ================= the two runner variants (table obligations over Gen/Spinnertabs.v) ================= *)
@@ -812,86 +1068,128 @@ Proof. vm_compute. repeat constructor. Qed.
 Lemma tab_plain_is_spinner_default : runner_iterations = spinner_iterations.
 Proof. vm_compute. reflexivity. Qed.
 
-(* the ForBrokenTwisted variant never reports more junk than the plain one in the same situation *)
-Lemma broken_shakes_out p q m :
-  i_broken p = true -> i_broken q = false -> incl (junk_of p m) (junk_of q m).
+(* the ForBrokenTwisted variant never leaves more leftovers than the plain one in the same situation *)
+Lemma broken_shakes_out m :
+  incl (m_pending (settle broken_runner_iterations m)) (m_pending (settle runner_iterations m)).
 Proof.
-  intros Hp Hq. unfold junk_of, iterations. rewrite Hp, Hq.
   pose proof tab_iterations_le as T.
-  destruct broken_runner_iterations, runner_iterations; try apply incl_refl.
+  destruct broken_runner_iterations, runner_iterations; cbn [settle]; try apply incl_refl.
   - lia.
-  - intros x Hx. apply filter_In in Hx. tauto.
+  - intros x Hx. cbn [advance m_pending] in Hx. apply filter_In in Hx. tauto.
 Qed.
 
 (* ================= programs that leave no delayed call: the verdict is decided by the input alone ================= *)
+Definition noleave (ks : nat * stage) : Prop := s_leave (snd ks) = [].
 Definition no_leftovers (p : program) : Prop :=
   s_leave (i_setup p) = [] /\ s_leave (i_body p) = [] /\ s_leave (i_teardown p) = []
   /\ Forall (fun st => s_leave st = []) (i_cleanups p).
+
+Definition wait_ok (w : waiting) : Prop := match w with WCleanup rest _ => Forall noleave rest | _ => True end.
+Definition nopend (r : rres) : Prop :=
+  match r with Completed m => m_pending m = [] | Stopped m _ _ _ w => m_pending m = [] /\ wait_ok w end.
 
 Lemma note_pending c m : m_pending (note_failure c m) = m_pending m.
 Proof. destruct c; reflexivity. Qed.
 
 Lemma run_stage_nopend C k st m :
   s_leave st = [] -> m_pending m = [] ->
-  match run_stage C k st m with Done _ m' => m_pending m' = [] | Cut m' => m_pending m' = [] end.
+  match run_stage C k st m with Done _ m' => m_pending m' = [] | Cut m' _ _ => m_pending m' = [] end.
 Proof.
   intros L P. unfold run_stage, start_stage. rewrite L, P.
-  destruct (s_ret st) as [|c|d f|]; simpl; try reflexivity.
+  destruct (completion_of (s_ret st)) as [f|d f|]; simpl; try reflexivity.
   destruct (Nat.ltb (m_now m + d) C); reflexivity.
 Qed.
 
-Lemma run_cleanups_nopend C : forall cs last m,
-  Forall (fun ks : nat * stage => s_leave (snd ks) = []) cs -> m_pending m = [] ->
-  match run_cleanups C cs last m with CDone _ m' => m_pending m' = [] | CCut m' _ => m_pending m' = [] end.
+Lemma k_cleanups_nopend C : forall cs last m,
+  Forall noleave cs -> m_pending m = [] -> nopend (k_cleanups C cs last m).
 Proof.
-  induction cs as [|[k st] r IH]; intros last m F P; [exact P|].
-  inversion F as [|? ? Hst Fr]; subst. cbn [run_cleanups snd] in *.
+  unfold k_cleanups. induction cs as [|[k st] r IH]; intros last m F P; [simpl; rewrite note_pending; exact P|].
+  inversion F as [|? ? Hst Fr]; subst. unfold noleave in Hst. cbn [snd] in Hst. cbn [run_cleanups].
   generalize (run_stage_nopend C k st m Hst P).
-  destruct (run_stage C k st m) as [c m1|m1]; intro P1; [apply IH; assumption | exact P1].
+  destruct (run_stage C k st m) as [c m1|m1 due f]; intro P1.
+  - apply IH; assumption.
+  - cbn [nopend wait_ok]. split; assumption.
 Qed.
 
 Lemma number_from_Forall (P : stage -> Prop) l : forall k,
   Forall P l -> Forall (fun ks : nat * stage => P (snd ks)) (number_from k l).
 Proof. induction l as [|s r IH]; intros k F; simpl; inversion F; subst; constructor; auto. Qed.
 
-Lemma clean_up_nopend C p m :
-  no_leftovers p -> m_pending m = [] ->
-  match clean_up C p m with Completed m' => m_pending m' = [] | Stopped m' _ => m_pending m' = [] end.
+Lemma clean_up_nopend C p m : no_leftovers p -> m_pending m = [] -> nopend (clean_up C p m).
 Proof.
-  intros (_ & _ & _ & F) P. unfold clean_up.
-  assert (F' : Forall (fun ks : nat * stage => s_leave (snd ks) = []) (rev (number_from 0 (i_cleanups p)))).
-  { apply Forall_rev. apply (number_from_Forall (fun st => s_leave st = [])). exact F. }
-  generalize (run_cleanups_nopend C _ None m F' P).
-  destruct (run_cleanups C (rev (number_from 0 (i_cleanups p))) None m); intro Q;
-    [rewrite note_pending|]; exact Q.
+  intros (_ & _ & _ & F) P. unfold clean_up. apply k_cleanups_nopend; [|exact P].
+  apply Forall_rev. apply (number_from_Forall (fun st => s_leave st = [])). exact F.
 Qed.
 
-Lemma run_deferred_nopend C p :
-  no_leftovers p ->
-  match run_deferred C p with Completed m => m_pending m = [] | Stopped m _ => m_pending m = [] end.
+Lemma tear_down_nopend C p m : no_leftovers p -> m_pending m = [] -> nopend (tear_down C p m).
 Proof.
-  intros N. pose proof N as (L1 & L2 & L3 & _). unfold run_deferred.
-  generalize (run_stage_nopend C id_setup (i_setup p) sim0 L1 eq_refl).
-  destruct (run_stage C id_setup (i_setup p) sim0) as [[x|] m1|m1]; intro P1; [| |exact P1].
+  intros N P. pose proof N as (_ & _ & L3 & _). unfold tear_down.
+  generalize (run_stage_nopend C id_teardown (i_teardown p) m L3 P).
+  destruct (run_stage C id_teardown (i_teardown p) m) as [c m1|m1 due f]; intro P1.
   - apply (clean_up_nopend C p _ N). rewrite note_pending. exact P1.
-  - generalize (run_stage_nopend C id_body (i_body p) m1 L2 P1).
-    destruct (run_stage C id_body (i_body p) m1) as [c2 m2|m2]; intro P2; [|exact P2].
-    assert (P2' : m_pending (note_failure c2 m2) = []) by (rewrite note_pending; exact P2).
-    generalize (run_stage_nopend C id_teardown (i_teardown p) _ L3 P2').
-    destruct (run_stage C id_teardown (i_teardown p) (note_failure c2 m2)) as [c3 m3|m3]; intro P3; [|exact P3].
-    apply (clean_up_nopend C p _ N). rewrite note_pending. exact P3.
+  - cbn [nopend wait_ok]. split; [exact P1 | exact I].
 Qed.
 
-Lemma junk_of_nil p m : m_pending m = [] -> junk_of p m = [].
-Proof. intro P. unfold junk_of. rewrite P. destruct (iterations p); reflexivity. Qed.
+Lemma run_test_nopend C p m : no_leftovers p -> m_pending m = [] -> nopend (run_test C p m).
+Proof.
+  intros N P. pose proof N as (_ & L2 & _ & _). unfold run_test.
+  generalize (run_stage_nopend C id_body (i_body p) m L2 P).
+  destruct (run_stage C id_body (i_body p) m) as [c m1|m1 due f]; intro P1.
+  - apply (tear_down_nopend C p _ N). rewrite note_pending. exact P1.
+  - cbn [nopend wait_ok]. split; [exact P1 | exact I].
+Qed.
+
+Lemma set_up_done_nopend C p c m : no_leftovers p -> m_pending m = [] -> nopend (set_up_done C p c m).
+Proof.
+  intros N P. destruct c as [x|]; cbn [set_up_done].
+  - apply (clean_up_nopend C p _ N). exact P.
+  - apply (run_test_nopend C p _ N P).
+Qed.
+
+Lemma run_deferred_nopend C p : no_leftovers p -> nopend (run_deferred C p).
+Proof.
+  intros N. pose proof N as (L1 & _). unfold run_deferred.
+  generalize (run_stage_nopend C id_setup (i_setup p) sim0 L1 eq_refl).
+  destruct (run_stage C id_setup (i_setup p) sim0) as [c m1|m1 due f]; intro P1.
+  - apply (set_up_done_nopend C p c _ N P1).
+  - cbn [nopend wait_ok]. split; [exact P1 | exact I].
+Qed.
+
+Lemma resume_nopend C p w f m : no_leftovers p -> wait_ok w -> m_pending m = [] -> nopend (resume_at C p w f m).
+Proof.
+  intros N W P. destruct w as [| | |rest last]; cbn [resume_at].
+  - apply (set_up_done_nopend C p f _ N P).
+  - apply (tear_down_nopend C p _ N). rewrite note_pending. exact P.
+  - apply (clean_up_nopend C p _ N). rewrite note_pending. exact P.
+  - apply k_cleanups_nopend; assumption.
+Qed.
+
+Lemma settle_nopend n m : m_pending m = [] -> m_pending (settle n m) = [].
+Proof. intro P. destruct n; [exact P|]. cbn [settle advance m_pending]. rewrite P. reflexivity. Qed.
+
+Lemma late_nopend C p : forall n m nleft due f w,
+  no_leftovers p -> wait_ok w -> m_pending m = [] -> m_pending (fst (late n C p m nleft due f w)) = [].
+Proof.
+  induction n as [|n IH]; intros m nleft due f w N W P; cbn [late]; [exact P|].
+  assert (P1 : m_pending (advance C m) = []) by (cbn [advance m_pending]; rewrite P; reflexivity).
+  destruct (option_eqb Nat.eqb due (Some C)); [|exact P1].
+  generalize (resume_nopend C p w f (advance C m) N W P1).
+  destruct (resume_at C p w f (advance C m)) as [m2|m2 n2 due2 f2 w2]; cbn [nopend fst].
+  - apply settle_nopend.
+  - intros [P2 W2]. apply IH; assumption.
+Qed.
 
 Lemma no_leftovers_unrun p : no_leftovers p -> o_unrun (model p) = 0.
 Proof.
   intro N. unfold model, run. cbn [o_unrun].
   generalize (run_deferred_nopend (cut_instant p) p N).
-  destruct (run_deferred (cut_instant p) p) as [m|m n]; intro P; rewrite finish_unrun, junk_of_nil;
-    try reflexivity; [exact P|].
-  unfold after_cut. cbn [m_pending]. rewrite P. reflexivity.
+  destruct (run_deferred (cut_instant p) p) as [m|m n due f w]; cbn [nopend].
+  - intro P. rewrite finish_unrun. unfold junk_of. rewrite (settle_nopend _ _ P). reflexivity.
+  - intros [P W].
+    assert (P0 : m_pending (reach_cut (cut_instant p) m) = []) by (cbn [reach_cut m_pending]; rewrite P; reflexivity).
+    pose proof (late_nopend (cut_instant p) p (passes p) _ n due f w N W P0) as Q.
+    destruct (late (passes p) (cut_instant p) p (reach_cut (cut_instant p) m) n due f w) as [m1 n1].
+    rewrite finish_unrun. unfold junk_of. cbn [note_cut m_pending fst] in *. rewrite Q. reflexivity.
 Qed.
 
 (* then success is decided by the program text and the timing alone *)
